@@ -3,6 +3,7 @@ package main
 import (
 	"fmt"
 	"go/token"
+	"go/types"
 	"sort"
 	"strings"
 
@@ -126,16 +127,17 @@ func checkC05(c *Ctx) {
 	c.Floor("unknown.origin returns", n, 15, "unknown-operand returns of Index, GetAttr, FunctionCall, ObjectCons, For, Splat, the logical operators, TemplateJoin, JSON objects")
 	c.NotCovered("the main clause of the property: that a known part of an abstract result equals the concrete result and that refinements (not-null, prefixes, bounds, lengths) hold for every concretisation — arithmetic over cty ranges")
 	c.NotCovered("unknown values that appear inside a returned collection, and unknown results produced by go-cty operations themselves")
-	c.Rule("R2 unknown.noerror: in every function of hclsyntax (expression*.go), ext/dynblock and hcl (ops.go) that evaluates operand expressions, with the operands (all together, and each alone) taken to be cty.DynamicVal — for which every cty predicate has a fixed answer: IsKnown/IsWhollyKnown/IsNull/CanIterateElements false, every Type().IsXType() false, Type() == DynamicPseudoType true — no branch decided by those answers is followed by an error diagnostic on every path to a return: a value that is merely not known yet is never rejected")
+	c.Rule("R2 unknown.noerror: in every function of hclsyntax (expression*.go), json (structure.go), ext/dynblock and hcl (ops.go) that evaluates operand expressions, with the operands (all together, and each alone) taken to be cty.DynamicVal — for which every cty predicate has a fixed answer: IsKnown/IsWhollyKnown/IsNull/CanIterateElements false, every Type().IsXType() false, Type() == DynamicPseudoType true — no branch decided by those answers is followed by an error diagnostic on every path to a return: a value that is merely not known yet is never rejected")
 	var evalFns []*ssa.Function
-	for _, fn := range c.P.pkgFuncs("hclsyntax", "ext/dynblock", "hcl") {
+	for _, fn := range c.P.pkgFuncs("hclsyntax", "ext/dynblock", "hcl", "json") {
 		file := c.P.Position(fn.Pos())
-		if strings.HasPrefix(file, "hclsyntax/expression") || strings.HasPrefix(file, "ext/dynblock/") || strings.HasPrefix(file, "ops.go") {
+		if strings.HasPrefix(file, "hclsyntax/expression") || strings.HasPrefix(file, "ext/dynblock/") || strings.HasPrefix(file, "ops.go") || strings.HasPrefix(file, "json/structure.go") {
 			evalFns = append(evalFns, fn)
 		}
 	}
 	sort.Slice(evalFns, func(i, j int) bool { return evalFns[i].Pos() < evalFns[j].Pos() })
 	c05UnknownNoError(c, "unknown.noerror", evalFns)
+	c05FlagMonotone(c, evalFns)
 }
 
 // unknownWitness: on every path with which block b can be reached some operand is unknown: an
@@ -579,4 +581,113 @@ func c05UnknownNoError(c *Ctx, rule string, fns []*ssa.Function) {
 // unknown operand is the contract.
 var unknownNoErrorExceptions = map[string]string{
 	"ext/dynblock.(*expandSpec).newBlock": "the labels of an hcl.Block are static Go strings: a label that is not known yet cannot be represented and is rejected by design, with a diagnostic that says so ('Dynamic block labels must be immediately-known values')",
+}
+
+// R3 unknown.flag: a "still known" flag only ever goes from true to false.
+func c05FlagMonotone(c *Ctx, fns []*ssa.Function) {
+	c.Rule("R3 unknown.flag: in the evaluators, a boolean variable carried round a loop that starts true and is set to false somewhere in the loop (a 'known so far' flag: the result is replaced by an unknown value when it ends up false) is never set back: every value it takes round the loop is itself, the constant false, or `flag && x` — an item that is known again must not make the evaluator forget an earlier unknown one")
+	n := 0
+	for _, fn := range fns {
+		for _, b := range fn.Blocks {
+			for _, ins := range b.Instrs {
+				ph, ok := ins.(*ssa.Phi)
+				if !ok {
+					break
+				}
+				if bt, ok := ph.Type().Underlying().(*types.Basic); !ok || bt.Kind() != types.Bool {
+					continue
+				}
+				var back []int
+				initTrue := false
+				for i, p := range b.Preds {
+					if b.Dominates(p) {
+						back = append(back, i)
+					} else if cn, ok := ph.Edges[i].(*ssa.Const); ok && cn.Value != nil && cn.Value.String() == "true" {
+						initTrue = true
+					}
+				}
+				if len(back) == 0 || !initTrue {
+					continue
+				}
+				// values the flag takes round the loop
+				cleared := false
+				var bad ssa.Value
+				var visit func(v ssa.Value, d int)
+				seen := map[ssa.Value]bool{}
+				visit = func(v ssa.Value, d int) {
+					if v == ssa.Value(ph) || seen[v] || d > 8 {
+						return
+					}
+					seen[v] = true
+					switch x := v.(type) {
+					case *ssa.Const:
+						if x.Value != nil && x.Value.String() == "false" {
+							cleared = true
+							return
+						}
+					case *ssa.Phi:
+						// flag && x in value form: false on the edge where the flag was false, and
+						// every other edge is reached only through the edge where it was true
+						if len(x.Edges) >= 2 {
+							var short *ssa.BasicBlock
+							for k, e := range x.Edges {
+								pred := x.Block().Preds[k]
+								if cn, ok := e.(*ssa.Const); ok && cn.Value != nil && cn.Value.String() == "false" {
+									if iff, ok := pred.Instrs[len(pred.Instrs)-1].(*ssa.If); ok && iff.Cond == ssa.Value(ph) && pred.Succs[1] == x.Block() && pred.Succs[0] != x.Block() {
+										short = pred
+									}
+								}
+							}
+							if short != nil {
+								conj := len(short.Succs[0].Preds) == 1
+								for k := range x.Edges {
+									pred := x.Block().Preds[k]
+									if pred != short && !short.Succs[0].Dominates(pred) {
+										conj = false
+									}
+								}
+								if conj {
+									cleared = true
+									return
+								}
+							}
+						}
+						for k, e := range x.Edges {
+							pred := x.Block().Preds[k]
+							if cn, ok := e.(*ssa.Const); ok && cn.Value != nil && cn.Value.String() == "false" {
+								if iff, ok := pred.Instrs[len(pred.Instrs)-1].(*ssa.If); ok && iff.Cond == ssa.Value(ph) {
+									continue
+								}
+							}
+							visit(e, d+1)
+						}
+						return
+					case *ssa.BinOp:
+						if x.Op == token.AND && (x.X == ssa.Value(ph) || x.Y == ssa.Value(ph)) {
+							return
+						}
+					}
+					if bad == nil {
+						bad = v
+					}
+				}
+				for _, i := range back {
+					visit(ph.Edges[i], 0)
+				}
+				if !cleared {
+					continue // not a "goes false and stays false" flag
+				}
+				n++
+				c.Sites++
+				c.Fn(FuncName(fn))
+				why := ""
+				if bad != nil {
+					why = pathName(bad)
+				}
+				c.Check(bad == nil, "unknown.flag", fmt.Sprintf("%s:flag[%s]", FuncName(fn), ph.Comment), ph.Pos(), "only ever cleared",
+					"the flag `"+ph.Comment+"` starts true and is cleared in the loop, but is also assigned "+why+", which can set it back to true: an unknown item followed by a known one leaves the flag true and the evaluator returns a known result that ignores the unknown item")
+			}
+		}
+	}
+	c.Floor("unknown.flag flags", n, 3, "known/isKnown flags of the object, for and template evaluators")
 }
